@@ -63,6 +63,13 @@ CHECKS = {
             "displacement at the bound, re-scoring of exactly the address used, rediscovery never changes a score, dial(peer) opens a top-k by score within free capacity.",
             "Scores are read through a verif accessor; strict eviction/rediscovery checks are applied to single-address inserts.",
             "DESIGN.md §3 C10"),
+    "C14": ("exploration",
+            "brute-force XOR oracle over routing-table dumps (hook) + structural invariants on random histories with crafted keys covering all 256 buckets",
+            "Histories of inserts (crafted keys through the real entry()), public mutators, connection-state changes, dial failures and pure look-ups; after every "
+            "operation: placement by floor(log2(local xor key)), local key never stored, <= 20 per bucket, connected peers never displaced; every closest(target,k) "
+            "is compared as an ordered list with a brute-force sort of the stored addressable peers (all single-bit targets, k in {1,3,20,21,400,..}).",
+            "Crafted keys are injected through a verif hook that only bypasses hashing; bucket choice/eviction are the real entry().",
+            "DESIGN.md §3 C14"),
     "C15": ("exploration",
             "trace checker over QueryEngine actions against a simulated network: all reply orders enumerated for small networks, random beyond, peer-timeout family in real time",
             "The real QueryEngine is driven the way kademlia/mod.rs drives it; oracle over the action trace: never the local node, never a peer twice, fresh in-flight "
@@ -70,6 +77,13 @@ CHECKS = {
             "learned closer peers, exactly-once partial results/providers, no request after the quorum is met.",
             "Timeout family uses real sleeps with one-sided (sound) freshness margins.",
             "DESIGN.md §3 C15"),
+    "C17": ("exploration",
+            "invariants on MemoryStore dumps + reference store comparison on random operation histories over the full configuration grid (short real sleeps cross expiries)",
+            "Histories of put/get/put_provider/get_providers/local-provider operations with colliding keys under all bound configurations (0/1/small); after every "
+            "operation: counts and sizes within the configuration, provider lists strictly sorted by independently computed XOR distance, no expired record/provider "
+            "returned (two-instant bracketing makes real-time races sound), earlier-expiry puts never replace, closest providers retained, re-announcement in place.",
+            "Differences outside the statement's clauses are inconclusive, not violations.",
+            "DESIGN.md §3 C17"),
     "C18": ("exploration",
             "differential runtime monitor vs libp2p-identity + round-trip and panic monitors (Miri on a subset in thorough)",
             "Every generated byte string / base58 string / key blob / ed25519 key is pushed through the real PeerId API and "
